@@ -48,7 +48,7 @@ class Netmap(V.Family):
             self.tiers = {
                 "quick": dict(mc=[("NetmapMC.tla", "Netmap_quick.cfg"), ("NetmapMC.tla", "NetmapDeep_quick.cfg"),
                                   ("NetmapMC.tla", "NetmapSubs_quick.cfg")], mc_timeout=900,
-                              sim=("NetmapMC.tla", "Netmap_sim.cfg", 80, 31), sim_keep=80, nrand=80, shards=6,
+                              sim=("NetmapMC.tla", "Netmap_sim.cfg", 120, 31), sim_keep=120, nrand=150, shards=6,
                               env=dict(VERIF_NRING=6, VERIF_NSYS=12)),
                 "thorough": dict(mc=[("NetmapMC.tla", "Netmap_thorough.cfg"), ("NetmapMC.tla", "NetmapDeep_thorough.cfg"),
                                      ("NetmapMC.tla", "NetmapSubs_thorough.cfg")], mc_timeout=3000,
